@@ -278,7 +278,10 @@ where
                         let loc_d_start = loc_d.1 + 1;
                         let loc_d_end = loc_d_start + (3 * (*data_len as usize)) - 1;
                         let data = if *data_len > 0 && loc_d_end < line.len() {
-                            hex_to_bytes(&line.as_str()[loc_d_start..loc_d_end])
+                            // (get as the line might contain non ascii chars after the header)
+                            line.as_str()
+                                .get(loc_d_start..loc_d_end)
+                                .and_then(hex_to_bytes)
                         } else {
                             None
                         };
@@ -366,7 +369,10 @@ where
                         let loc_d_start = loc_d.1 + 1;
                         let loc_d_end = loc_d_start + (3 * (*data_len as usize)) - 1;
                         let data = if *data_len > 0 && loc_d_end < line.len() {
-                            hex_to_bytes(&line.as_str()[loc_d_start..loc_d_end])
+                            // (get as the line might contain non ascii chars after the header)
+                            line.as_str()
+                                .get(loc_d_start..loc_d_end)
+                                .and_then(hex_to_bytes)
                         } else {
                             None
                         };
